@@ -47,13 +47,13 @@ def _signal_case(c):
     try:
         with warnings.catch_warnings():
             warnings.simplefilter('ignore')
-            df = implutil.twice(lambda: compute_features(sig, c['fs'], tuple(c['f_range']), center_extrema=c['center'], burst_method='amp',
+            df = implutil.twice(lambda: compute_features(sig, c['fs'], implutil.frange(c), center_extrema=c['center'], burst_method='amp',
                                                          burst_kwargs=bk, threshold_kwargs=th), [sig, bk, th], 'compute_features')
             if th is not None and c.get('route') in (0, 1):
                 # the same settings through a Bycycle object with a history: a first fit with a LARGER min_n_cycles in the thresholds, then the
                 # requested value is written into the stored dictionary and the object is fitted again on the same array
                 # (route 1: only the VALUES inside the stored thresholds differ between the two fits, nothing is rebound and the array is the same object)
-                dfo = implutil.object_route(sig, c['fs'], tuple(c['f_range']), c['center'], 'amp', bk, th, None, True,
+                dfo = implutil.object_route(sig, c['fs'], implutil.frange(c), c['center'], 'amp', bk, th, None, True,
                                             **(dict(variant=2, which=0) if c.get('route') == 1 and 'min_n_cycles' in th else {}))
                 if not (dfo['is_burst'].equals(df['is_burst']) and dfo['burst_fraction'].equals(df['burst_fraction'])):
                     return dict(err='ObjectRouteDiffers', msg='Bycycle object with a history gives other burst fractions / labels than compute_features')
@@ -79,7 +79,7 @@ def _dual(c, args):
     at = tuple(bk.get('amp_threshes', (1, 2)))
     with warnings.catch_warnings():
         warnings.simplefilter('ignore')
-        m = detect_bursts_dual_threshold(sig, c['fs'], at, tuple(c['f_range']), min_n_cycles=_num(args[0]),
+        m = detect_bursts_dual_threshold(sig, c['fs'], at, implutil.frange(c), min_n_cycles=_num(args[0]),
                                          min_burst_duration=_num(args[1]))
     return list(np.asarray(m).astype(bool))
 
